@@ -312,6 +312,18 @@ func (v *WorldView) Has(kind, proc, str string) bool {
 }
 func (v *WorldView) HoldActive(tag string) bool { return v.w.holdActive[tag] }
 
+// AliveNames lists the replica names with a live simulated command.
+func (v *WorldView) AliveNames() []string {
+	var out []string
+	for n, s := range v.w.procs {
+		if len(s.alive) > 0 {
+			out = append(out, n)
+		}
+	}
+	sort.Strings(out)
+	return out
+}
+
 // AllInstancesFinished: every instance goroutine reached runner.afterRun.
 func (v *WorldView) AllInstancesFinished() bool {
 	inst, fin := 0, 0
